@@ -20,8 +20,11 @@ func c14Echo(ctx erpc.CallCtx, arg *string) (*string, *erpc.Status) {
 	return &r, nil
 }
 func c14Push(ctx erpc.PushCtx, arg *string) *erpc.Status { return nil }
+func c14Err(ctx erpc.CallCtx, arg *string) (*string, *erpc.Status) {
+	return nil, erpc.NewStatus(1000, "refused:"+*arg, "cause:"+*arg)
+}
 
-var c14Ops = []string{"call", "push", "setid", "swap", "close", "lookup", "range", "count", "ages", "srvcall", "rclose", "health", "async"}
+var c14Ops = []string{"call", "push", "setid", "swap", "close", "lookup", "range", "count", "ages", "srvcall", "rclose", "health", "async", "errcall", "errone"}
 
 // c14Soup: 2-3 threads, each doing one documented-concurrent operation on shared sessions/peers.
 // Used in race mode: the oracle is the race detector (exact per explored schedule).
@@ -37,6 +40,7 @@ func c14Soup(p Params) func() {
 		srv := world.NewPeer("json")
 		hc := srv.RouteCallFunc(c14Echo)
 		hp := srv.RoutePushFunc(c14Push)
+		he := srv.SubRoute("/e").RouteCallFunc(c14Err)
 		cli := world.NewPeer("json")
 		chc := cli.RouteCallFunc(c14Echo)
 		cs, ss, _ := world.Connect(cli, srv, pf)
@@ -49,6 +53,27 @@ func c14Soup(p Params) func() {
 					var r string
 					arg := fmt.Sprint("a", i)
 					cs.Call(hc, &arg, &r)
+				case "errcall":
+					// calls answered with an error status; the caller keeps the commands and reads their status, reply
+					// metadata and result later, while other goroutines keep using the session (whose reader recycles
+					// its handler contexts and messages)
+					var r1, r2 string
+					arg := fmt.Sprint("a", i)
+					cmd1 := cs.Call(he, &arg, &r1)
+					cmd2 := cs.Call(he, &arg, &r2)
+					vsched.Yield()
+					for _, cmd := range []erpc.CallCmd{cmd1, cmd2} {
+						st := cmd.Status()
+						_, _, _ = st.Code(), st.Msg(), st.Cause()
+						_ = st.String()
+						if m := cmd.InputMeta(); m != nil {
+							m.Len()
+						}
+					}
+				case "errone":
+					var r string
+					arg := fmt.Sprint("e", i)
+					cs.Call(he, &arg, &r)
 				case "async":
 					var r string
 					arg := fmt.Sprint("a", i)
